@@ -82,6 +82,26 @@ def prepare(tier):
             pts = [(-33.218299099680046, -84.91007734884018), (-30.59405475538334, -82.89311063022787), (-46.00618373625746, -84.69818693286045),
                    (-44.81536919939957, -87.27720708515018), (-47.09162366839446, -87.32531927448322)]
         clusters.append((f'polar_r{r:02d}', r, pts[:7], [(0.0, 89.0), (0.0, -89.0)], 3))
+    # face-edge clusters: points at log-scaled distances on both sides of a dodecahedron edge (at its midpoint and a little along it), all
+    # at one resolution: which face the previous call ended on must not decide the face of a point next to the edge
+    from vf import geo as _geo, sphere as _sp
+    fr = _geo.frame_points()
+    centres_v = [_sp.vec((lo, la)) for kk_, lo, la in fr if kk_ == 'face_centre']
+    mids = [(lo, la) for kk_, lo, la in fr if kk_ == 'edge_midpoint']
+    pick = mids if tier == 'thorough' else mids[common.seed() % 3::3]
+    for ei, (lo, la) in enumerate(pick):
+        m = _sp.vec((lo, la))
+        c1, c2 = sorted(centres_v, key=lambda v: _sp.angle(v, m))[:2]
+        across = _sp.unit(_sp.sub(c1, c2))
+        along = _sp.unit(_sp.cross(m, across))
+        pts = []
+        for shift in (0.0, 0.004):
+            base = _sp.unit(_sp.add(m, _sp.scale(along, shift)))
+            for sgn in (1.0, -1.0):
+                for sc in ((1e-9, 1e-7, 1e-6, 1e-5, 3e-5, 1e-4, 1e-3, 1e-2, 0.2) if shift == 0.0 else (1e-6, 1e-5, 1e-4)):
+                    pts.append(tuple(_sp.lonlat(_sp.unit(_sp.add(base, _sp.scale(across, sgn * sc))))))
+        for r in ((0, 1, 8, 20, 29) if tier == 'thorough' else (0, 20)):
+            clusters.append((f'edge{ei:02d}r{r:02d}', r, pts, [], 2, [], 'edge'))
     # low resolutions have their own code paths (face pentagon, quintant triangles): cells and points for faces 0, 5, 11
     low = []
     for f, tri, kind, p, res, cell in geo:
@@ -375,7 +395,7 @@ def run(tier, t0):
         depth = cl[4] if len(cl) > 4 else 2
         if depth == 3:
             deep_clusters.append(len(cl_menus))
-        if tier == 'quick' and r not in (3, 8, 9, 29):
+        if tier == 'quick' and r not in (3, 8, 9, 29) and not (len(cl) > 6 and cl[6] == 'edge'):
             continue
         evs = [(f'tie:{tag}:b{i}', 'lonlat_to_cell', (bp, r), False) for i, bp in enumerate(bpts)]
         evs += [(f'tie:{tag}:c{i}', 'lonlat_to_cell', (cp, r), False) for i, cp in enumerate(centres)]
@@ -459,7 +479,7 @@ def run(tier, t0):
     acc.sample({'pristine_state_hash': h0, 'distinct_states': len(seen)})
     rule = (f'event menu of {len(full)} public calls (12 faces x 10 triangles x inside/near-edge x lonlat_to_cell, cell_to_boundary, cell_to_lonlat + 18 other calls, mutate-the-result variants); '
             f'all histories of length 1 over the menu, length 2 over {len(menu2)} events, length 3 over {len(sub)} events (extended only from histories that reached a new library state), '
-            'and 4 (quick: 2) saturation histories (whole menu in different orders, then every event again); tie clusters (ring vertices of a cell x centres of the surrounding cells x ring / centre calls of the cells of the cluster, all histories of length 2; polar clusters length 3); fault enumeration: 20 calls aborted by an injected exception at every line event '
+            'and 4 (quick: 2) saturation histories (whole menu in different orders, then every event again); tie clusters (ring vertices of a cell x centres of the surrounding cells x ring / centre calls of the cells of the cluster, all histories of length 2; polar clusters length 3; face-edge clusters: 24 points at 1e-9 .. 0.2 rad on both sides of a dodecahedron edge x resolutions 0/20 (thorough: 30 edges x 0/1/8/20/29), all histories of length 2); fault enumeration: 20 calls aborted by an injected exception at every line event '
             '(quick: first 3 / last 1 occurrences per site, 16 calls; thorough: first 40 / last 10) followed by 16 probe calls; a state is the canonical hash of everything reachable from the a5 module globals')
     return common.finish(PID, LEVEL, tier, acc, t0, rule, [
         'the oracle value of an event is the value of the single call in a process forked from a pristine import; 16 of them per run are compared with genuinely fresh interpreters',
